@@ -243,6 +243,24 @@ def gen_special(rng, quick):
     # 65535-credit ledgers: the receiver's returns must never make the sender hold more than 65535
     out.append(_base(rng, family="credit-cap", cls="credit-cap", role="server", p0=dict(mtu=23, mps=23, credits=65535),
                      seg=[{"sdu": "max", "frame": "one"}] * 5, writes=[[[], [[0, 31740]]]] + [[[], []]] * 4))  # 1380 SDUs x 24 frames
+    # a sender that holds the maximum: initial credits exactly 65535 (and the pair 65534) with a receiver that returns
+    # credits frame by frame ("each": every return takes the sender back to at most the initial value, the last one of
+    # a burst to EXACTLY 65535) or tops the sender up to exactly 65535 in one packet ("huge").  Being topped up to 65535
+    # is legal (CapOk), the channel must stay open and the writes after the pause must arrive.  Both peers, both
+    # roles, LE CoC and enhanced CoC; against a second bumble its receiving side returns one credit per frame too
+    for peer in ("puppet", "bumble"):
+        for role in ("server", "client"):
+            for mode in ("le", "ecred"):
+                for credits, policy in ((65535, "each"), (65534, "each"), (65534, "huge"), (65535, "huge")):
+                    if peer == "bumble" and policy == "huge":
+                        continue
+                    nch = 1 if mode == "le" else 2
+                    w = [[[0, 10], [0, 100], [3.0, 40], [0.5, 1]], [[0.2, 30], [4.0, 50], [0, 7]]]
+                    out.append(_base(rng, family="credit-top", cls="credit-top", peer=peer, role=role, mode=mode, nch=nch,
+                                     hci_delay=rng.choice([0.0, 0.01]), rx_each=True,
+                                     p0=dict(mtu=64, mps=23, credits=credits if peer == "bumble" or policy == "huge" else 7),
+                                     p1=dict(mtu=64, mps=23, credits=credits), cidrel="diff", cids=[0x66, 0x65, 0x64, 0x63, 0x62],
+                                     grant=[{"policy": policy}] * 5, writes=[w] * nch + [[[], []]] * (5 - nch)))
     if not quick:
         out.append(_base(rng, family="credit-cap", cls="credit-cap", role="client", mode="ecred", nch=1, p0=dict(mtu=64, mps=64, credits=65535),
                          cidrel="diff", cids=[0x55], seg=[{"sdu": "rand", "frame": "small"}] * 5, writes=[[[[0, 9]], [[0, 100000]]]] + [[[], []]] * 4))
@@ -275,10 +293,10 @@ def _batch_job(args):
 
 
 CLAUSES = {"send": ["credit", "mps", "mtu", "written", "shape"], "recv": ["fifo"], "credit": ["fifo"], "grant": ["cap"],
-           "sink": ["bytes", "have"], "quiesce": ["alldelivered", "drained"]}
+           "sink": ["bytes", "have"], "close": ["asked"], "quiesce": ["alldelivered", "drained"]}
 NAMES = {"credit": "without-credit", "mps": "above-peer-mps", "mtu": "sdu-above-peer-mtu", "written": "bytes-never-written",
          "shape": "sdu-framing", "fifo": "lost-or-reordered", "cap": "above-65535", "bytes": "bytes-differ", "have": "bytes-not-received",
-         "drained": "drain-blocked"}
+         "drained": "drain-blocked", "asked": "unprovoked-disconnect"}
 
 
 def classify(ev, info, sc, d):
@@ -292,6 +310,10 @@ def classify(ev, info, sc, d):
     clause = next((c for c in CLAUSES.get(e, []) if why.get(c) is False), None)
     if clause is None:
         return sender, "refused"
+    if e == "close":
+        # a Disconnection Request that no application asked for, on a channel whose peer did nothing the specification
+        # refuses (the trace was accepted so far): the endpoint that sent the request broke the promise of progress
+        return (sender if ev.get("first") else receiver), NAMES[clause]
     if clause == "alldelivered":
         unsent = st.get("written", 0) > st.get("packed", 0) or st.get("sduLeft", 0) > 0
         if unsent and st.get("cr", 0) > 0:
@@ -340,6 +362,8 @@ def run_scenarios(ctx, rep, scenarios, pool, channel_patch=None, count=True):
     found = []
     puppet_fault = []
     bumble_fault = set()
+    rejected = {}  # (scenario, channel) -> [(actor, event name)] of every rejected trace of that channel
+    closes = []  # (index in found, scenario, channel, actor) of the unprovoked-disconnect findings
     for b, o in zip(batches, outs):
         rep.extra["trace_states"] = rep.extra.get("trace_states", 0) + o["states"]
         for tid, v in o["verdicts"].items():
@@ -360,6 +384,7 @@ def run_scenarios(ctx, rep, scenarios, pool, channel_patch=None, count=True):
                 actor, clause = classify(ev, info, sc, d)
                 if ev["e"] == "raise" and r["anomalies"]:
                     clause = r["anomalies"][0][2]
+                rejected.setdefault((si, ci), []).append((actor, ev["e"]))
                 if sc["peer"] == "puppet" and actor == 1:
                     # the reference peer appears to break the specification.  If bumble broke it in the same scenario
                     # (another channel or direction of this run is rejected with bumble as the actor) this is a
@@ -373,8 +398,14 @@ def run_scenarios(ctx, rep, scenarios, pool, channel_patch=None, count=True):
                 summary = (f"{sc['mode']} channel, bumble as {actor_role}, peer {sc['peer']} (cids bumble/peer {r['chans'][ci]['cids']}, receiver of this direction announced "
                            f"mtu/mps/credits {r['chans'][ci]['params'][1 - d]}): direction {'0->1' if d == 0 else '1->0'} event {l} {ev} refused: {clause}; "
                            f"spec state {info.get('st')}" + (f"; observed: {what[:3]}" if what else ""))
+                if ev["e"] == "close":
+                    closes.append((len(found), si, ci, actor))
                 found.append((sig, summary, {"scenario": sc, "chan": ci, "dir": d, "line": l, "event": ev, "why": info.get("why"), "state": info.get("st")}))
                 bumble_fault.add(si)
+    # a stack may disconnect a channel whose PEER broke the protocol: when the other direction of the same channel is
+    # rejected at an earlier kind of event with the other endpoint as the actor, the disconnection is its consequence
+    provoked = {i for i, si, ci, actor in closes if any(a != actor and e not in ("close", "quiesce") for a, e in rejected.get((si, ci), []))}
+    found = [f for i, f in enumerate(found) if i not in provoked]
     for si, msg in puppet_fault:
         if si not in bumble_fault:
             raise RuntimeError(f"harness: the puppet itself breaks the specification {msg}")
